@@ -136,7 +136,7 @@ def session_family(ctx, extra_args=None, runs=None):
     return viols, cov, files
 
 
-@pipeline("C01", "C02", "C12", "C13", "C14")
+@pipeline("C01", "C02", "C14")
 def p_session(ctx):
     viols, cov, _ = session_family(ctx)
     finish(ctx, viols, cov, assumptions=[
@@ -605,10 +605,41 @@ def p_c11(ctx):
         e = evs[b["l"] - 1]
         viols.append({"what": b["what"], "replay": {"pipeline": "lookup", "world": world_of(evs, b["l"]), "event": e}})
     samples = [json.loads(x) for x in open(files[-3]).read().splitlines() if '"Lookup"' in x][:2]
+    # (3) generated configurations: every written reference resolves to exactly the declaration its address denotes
+    v3, cov3 = expr_family(ctx, {"C11"})
+    viols += v3
     finish(ctx, viols, {
-        "evaluations": n1 + n2, "distinct_nontrivial": n + 5,
+        "evaluations": n1 + n2 + cov3["evaluations"], "distinct_nontrivial": n + 5 + cov3["distinct_nontrivial"],
         "rule": "case = one world of MC_Refs (nested targets with/without definition range, typed/untyped, dynamic; 1-2 origins with/without constraints) stored in a real PathContext, or one of 5 "
                 "real worlds (incl. a 3-path workspace with path, implied and direct origins, a path sharing its directory with another, an unreadable path); go-to-definition is asked at start / middle / "
                 "last byte of every origin and find-references at the definition of every reported declaration",
         "traces_validated_against_impl": len(files), "trace_events": events, "samples": samples, "exhaustive": False},
         assumptions=["the inverse property constrains declarations that have a definition range (DESIGN 5/C11); the stricter reading is shown to fail on the model and is not asserted"])
+
+
+def session_plus_expr(ctx, assumptions):
+    viols, cov, _ = session_family(ctx)
+    v2, cov2 = expr_family(ctx, {ctx.prop})
+    viols += v2
+    cov["evaluations"] += cov2["evaluations"]
+    cov["distinct_nontrivial"] += cov2["distinct_nontrivial"]
+    cov["traces_validated_against_impl"] += cov2["traces_validated_against_impl"]
+    cov["trace_events"] += cov2["trace_events"]
+    cov["rule"] += "; plus " + cov2["rule"]
+    cov["samples"] = cov["samples"][:2] + cov2["samples"]
+    return viols, cov
+
+
+@pipeline("C12")
+def p_c12(ctx):
+    viols, cov = session_plus_expr(ctx, [])
+    v3, cov3 = body_hover(ctx) if "body_hover" in globals() else ([], None)
+    viols += v3
+    finish(ctx, viols, cov, assumptions=["value hover: the element under the cursor is 'interpretable' iff ExprRules!TokensP assigns it a token; otherwise nothing or an enclosing element may be described",
+                                         "regions the statement leaves open (arguments of unknown functions, literal collections under any(dynamic), one-of, known findings) are not asserted"])
+
+
+@pipeline("C13")
+def p_c13(ctx):
+    viols, cov = session_plus_expr(ctx, [])
+    finish(ctx, viols, cov, assumptions=["value tokens are compared as sets of (type, exact extent) outside the open regions of ExprRules!OpenTok / OpenIn / OpenKeyItems"])
